@@ -67,6 +67,7 @@ Definition import_spz_stream (b : Z) (s : stream T) : option spz :=
           let pn := readline T (snd sh) in
           zn <- head_int T (fst pn) ;; nz <- nat_of zn ;;
           es <- rd_zentries b (length (fst sh)) nz (snd pn) ;;
+          if Nat.eqb (length (fst sh)) 0 && negb (Nat.eqb nz 0) then None else
           if forallb (inbz (fst sh)) (map fst es) then Some (mkSpz (fst sh) (map fst es) (map snd es)) else None
         else None
       else None
@@ -79,7 +80,7 @@ Definition spz_of (Sp : sparse D) : spz :=
   mkSpz (map Z.of_nat (sshape Sp)) (map (map Z.of_nat) (ssubs Sp)) (svals Sp).
 
 Definition wf_spz (S : spz) : Prop :=
-  zshape S <> [] /\ Forall (fun d => (0 <= d)%Z) (zshape S) /\ length (zsubs S) = length (zvals S) /\
+  (zshape S = [] -> zsubs S = []) /\ Forall (fun d => (0 <= d)%Z) (zshape S) /\ length (zsubs S) = length (zvals S) /\
   Forall (fun i => inbz (zshape S) i = true) (zsubs S).
 End B.
 
